@@ -142,8 +142,12 @@ def decl_source(d, doc=False, derive_debug_enums=True, vis="pub "):
             out.append("#[repr(u64)]")  # Rust's own rule: discriminants default to isize
         out.append("%senum %s {" % (vis, e["name"]))
         for v in e["variants"]:
-            if doc:
+            if doc or v.get("doc"):
                 out.append("    /// variant")
+            if v.get("cfg") == "on":
+                out.append("    #[cfg(all())]")
+            elif v.get("cfg") == "off":
+                out.append("    #[cfg(any())]")
             out.append("    %s = %d," % (v["name"], bits_to_int(v["d"])))
         out.append("}")
     for nd in d["nested"]:
@@ -174,10 +178,14 @@ def decl_source(d, doc=False, derive_debug_enums=True, vis="pub "):
         out.append("/// the bitfield")
     out.append("#[bitbybit::bitfield(%s)]" % ", ".join(args))
     out.append("%sstruct %s {" % (vis, d["name"]))
-    for f in d["fields"]:
-        if doc or f.get("doc", False):
+    for k, f in enumerate(d["fields"]):
+        # a doc comment may legally stand before or after the bit attribute: alternate
+        after = (doc or f.get("doc", False)) and k % 2 == 1
+        if (doc or f.get("doc", False)) and not after:
             out.append("    /// field %s" % strip_raw(f["name"]))
         out.append("    " + attr_text(f))
+        if after:
+            out.append("    /// field %s (documented after the attribute)" % strip_raw(f["name"]))
         t = field_type(d, f)
         if f["array"]:
             t = "[%s; %d]" % (t, f["array"][0])
